@@ -432,6 +432,7 @@ namespace symv {
   inline Sym exp(const Sym& a) { return (a.isconst() && a.iszero()) ? Sym(1) : mk1(EXP, a); }
   inline Sym log(const Sym& a) { return a.isone() ? Sym(0) : mk1(LOG, a); }
   inline Sym log10(const Sym& a) { return mk1(LOG10, a); }
+  inline Sym log1p(const Sym& a) { return log(Sym(1) + a); }  // additive (C24): ln(1 + a), exact in the reals
   inline Sym cos(const Sym& a) { return (a.isconst() && a.iszero()) ? Sym(1) : mk1(COS, a); }
   inline Sym sin(const Sym& a) { return (a.isconst() && a.iszero()) ? Sym(0) : mk1(SIN, a); }
   inline Sym tan(const Sym& a) { return mk1(TAN, a); }
@@ -1057,6 +1058,7 @@ namespace std {
   using symv::isnan;
   using symv::log;
   using symv::log10;
+  using symv::log1p;
   using symv::pow;
   using symv::sin;
   using symv::sinh;
